@@ -91,11 +91,14 @@ def main():
         margin = min([abs((j * b + a) * T - c * m * b) for j in range(m) for c in cs if c != T] + [m * b * T]) / (m * b * T)
         if margin < 2e-6:
             continue
-        lw = jnp.log(jnp.asarray(ws, dtype=jnp.float32)) + rng.choice([0.0, 3.0, -7.5])
+        # a common offset of the log weights (large ones are the normal state of a filter that has not
+        # resampled for a while): resampling is invariant under it
+        shift = rng.choice([0.0, 3.0, -7.5, -150.0, 120.0, -1000.0, 80.0])
+        lw = jnp.log(jnp.asarray(ws, dtype=jnp.float32)) + shift
         smc.uniform = types.SimpleNamespace(sample=lambda lo, hi, a=a, b=b: jnp.float32(lo) + jnp.float32(a / b) * (jnp.float32(hi) - jnp.float32(lo)))
         try:
             idx = [int(i) for i in np.asarray(smc.systematic_resample(lw, m))]
-            cases.append({"kind": "sys", "ws": ws, "N": m, "a": a, "b": b, "idx": idx, "wkind": kind})
+            cases.append({"kind": "sys", "ws": ws, "N": m, "a": a, "b": b, "idx": idx, "wkind": kind, "shift": shift})
         except Exception as e:  # noqa: BLE001
             cases.append({"kind": "sys", "ws": ws, "N": m, "a": a, "b": b, "err": type(e).__name__ + str(e)[:100]})
         finally:
@@ -107,7 +110,8 @@ def main():
         t1 = jnp.asarray([10.0 * i + 1 for i in range(n)], dtype=jnp.float32)
         t2 = jnp.asarray([10.0 * i + 2 for i in range(n)], dtype=jnp.float32)
         tr = model.vmap(in_axes=(0, 0)).simulate(t1, t2)
-        lw = jnp.log(jnp.asarray(ws, dtype=jnp.float32)) + rng.choice([0.0, 1.5, -4.0])
+        shift2 = rng.choice([0.0, 1.5, -4.0, -100.0, 95.0])
+        lw = jnp.log(jnp.asarray(ws, dtype=jnp.float32)) + shift2
         est = jnp.float32(rng.choice([0.0, -2.25, 3.5]))
         # stored diagnostic weights are deliberately stale (as after rejuvenate / a previous resample)
         stale = jnp.log(jnp.asarray(list(reversed(gen_weights(rng, n)[1])), dtype=jnp.float32))
@@ -115,7 +119,7 @@ def main():
                                     diagnostic_weights=stale, n_samples=const(n),
                                     log_marginal_estimate=est)
         method = rng.choice(["systematic", "categorical"])
-        c = {"kind": "res", "ws": ws, "method": method, "n": n, "wkind": kind}
+        c = {"kind": "res", "ws": ws, "method": method, "n": n, "wkind": kind, "shift": shift2}
         b = rng.choice([64, 128, 97])
         a = rng.randint(1, b - 1)
         T = sum(ws)
